@@ -43,7 +43,7 @@ def all_ops():
     for i in (-5, -2, -1, 0, 1, 3):
         o.append(op('pop', i=i))
         o.append(op('get', i=i))
-    o += [op('reverse'), op('clear')]
+    o += [op('reverse'), op('clear'), op('extend_self'), op('pop_default')]
     for a, b, st in ((0, 2, 1), (1, 99, 1), (0, 99, 2), (-2, 99, 1), (0, -1, 1), (0, 99, 1), (2, 1, 1)):
         o.append(op('slice', i=a, j=b, st=st))
     return o
@@ -108,6 +108,23 @@ class Real(object):
                 a.insert(o['i'], self.val(o['v'])); r = ['ok']
             elif k == 'extend':
                 a.extend([self.val(v) for v in o['vs']]); r = ['ok']
+            elif k == 'extend_self':
+                import signal
+
+                def alarm(*_):
+                    raise TimeoutError()
+                old = signal.signal(signal.SIGALRM, alarm)
+                signal.alarm(5)
+                try:
+                    a.extend(a); r = ['ok']
+                except TimeoutError:
+                    del a[64:]          # the list grew without bound: cut it so that the rest of the report stays small
+                    r = ['exc', 'Hang']
+                finally:
+                    signal.alarm(0)
+                    signal.signal(signal.SIGALRM, old)
+            elif k == 'pop_default':
+                x = a.pop(); r = ['item', self.idof(x)] + to_atoms(str(x))
             elif k == 'remove':
                 a.remove(self.val(o['v'])); r = ['ok']
             elif k == 'pop':
@@ -186,6 +203,8 @@ def record_walks(rng, count, length, maxlen=6):
             if o['k'] in ('append', 'insert') and len(R.args) >= maxlen:
                 continue
             if o['k'] == 'extend' and len(R.args) + len(o['vs']) > maxlen:
+                continue
+            if o['k'] == 'extend_self' and 2 * len(R.args) > maxlen:
                 continue
             r, st = R.do(o)
             h.append({'op': json_op(o), 'r': r, 'texts': st['texts'], 'ids': st['ids'], 'str': st['str'], 'owner': st['owner'], '_op': o})
